@@ -241,6 +241,12 @@ Definition import_props (rebuild : bool) (now : Z) (g : list proposal * Z) : pro
   if rebuild then mkProps (fst g) (map p_id (filter in_voting (fst g))) (map p_id (filter (in_enactment now) (fst g))) (snd g)
   else mkProps (fst g) [] [] (snd g).
 Definition reimport_props (rebuild : bool) (now : Z) (s : props_state) : props_state := import_props rebuild now (export_props s).
+(* the mis-refactoring of the rebuild (seeded change C12-b): an Enactment proposal is re-queued only while
+   its enactment period is not over at genesis time *)
+Definition in_enactment_timegated (now : Z) (p : proposal) : bool :=
+  match p_result p with Enactment | Rejected => now <? p_enact_end p | _ => false end.
+Definition import_props_timegated (now : Z) (g : list proposal * Z) : props_state :=
+  mkProps (fst g) (map p_id (filter in_voting (fst g))) (map p_id (filter (in_enactment_timegated now) (fst g))) (snd g).
 (* the queues hold exactly the proposals in the respective phase (what submit / EndBlocker maintain) *)
 Definition queues_sound (now : Z) (s : props_state) : Prop :=
   (forall id, In id (active_q s) <-> In id (map p_id (filter in_voting (proposals s)))) /\
